@@ -215,7 +215,7 @@ func modelPlan(ctx *Ctx, c c16Case, rr *RunRes) {
 		np := len(n.Ins)
 		for k, u := range n.Ins {
 			if c.Unplug != fmt.Sprintf("%s.in%d", n.Name, k) {
-				edges = append(edges, fmt.Sprintf("%d:%d:%d", idx[u], i, k))
+				edges = append(edges, fmt.Sprintf("%d:%d:%d", idx[baseName(u)], i, k))
 			}
 		}
 		if n.PIn != "" {
